@@ -81,7 +81,11 @@ def shard_special(item):
     T = Tally()
     for cfg in cfgs:
         try:
-            graph.run_history(cfg, [['Step']] * nsteps, Oracle, T)
+            ops = [['Step']] * nsteps
+            if cfg.get('then_box'):
+                # (D) the box is replaced mid-run by one whose endpoints have another numeric type / are not integers
+                ops = [['Step'], ['Step'], ['SetStrictRanges', cfg['then_box'], cfg.get('tight'), cfg.get('clip')]] + [['Step']] * 4
+            graph.run_history(cfg, ops, Oracle, T)
             T.nontriv(('B', sorted(cfg.items(), key=str)))
         except Exception as e:
             T.hist('configuration_rejected', '%s:%s' % (cfg.get('box'), type(e).__name__))
@@ -230,6 +234,13 @@ def run(ctx):
                         for x0 in (solverlab.STARTS[dim][0], solverlab.STARTS[dim][2]):
                             special.append({'solver': solver, 'dim': dim, 'cost': 'sphere', 'x0': x0, 'box': box, 'tight': t, 'clip': c,
                                             'constraint': con, 'seed': ctx.seed, 'term': 'never', 'horizon': 4000})
+    # (D) a box given with int endpoints, replaced mid-run by a tighter one with non-integer endpoints (and other type changes)
+    for solver in solverlab.SOLVERS:
+        for first, then in (('intbox', 'fracbox'), ('fracbox', 'intbox'), ('intbox', 'shift'), ('unit', 'fracbox')):
+            for (t, c) in MODES:
+                for x0 in ([4.75, 0.25], [2.0, 2.0]):
+                    special.append({'solver': solver, 'dim': 2, 'cost': 'sphere' if x0[0] > 4 else 'illq', 'x0': x0, 'box': first, 'then_box': then,
+                                    'tight': t, 'clip': c, 'seed': ctx.seed, 'term': 'never', 'horizon': 4000})
     for i in range(0, len(special), 40):
         items.append(('B', (special[i:i + 40], 8 if ctx.thorough else 6)))
     # scripted random re-entry (clip=False), NM and Powell only (they draw nothing else)
